@@ -328,8 +328,15 @@ EndDetail(c, e) ==
             changed |-> Changed(view, before), exception |-> Exception(view, before)])
 
 \* ---- the step ---------------------------------------------------------------
+\* SIGKILL of the receiving process (one self-contained event): Send must return, and it must not
+\* report success unless the receiver had already acknowledged completion
+KilledClauses(e) ==
+  Cl(e.hang \/ ~e.sendReturned, "C04.hang")
+  \cup Cl(e.sendOK /\ ~e.finSeenBySender, "C04.sendSuccessWithoutFin")
+
 Consume(c, e) ==
-  IF e.ev = "Begin" THEN <<NewCase(e), IF c.active THEN {"HARNESS.beginInsideCase"} ELSE {}>>
+  IF e.ev = "Killed" THEN <<c, KilledClauses(e)>>
+  ELSE IF e.ev = "Begin" THEN <<NewCase(e), IF c.active THEN {"HARNESS.beginInsideCase"} ELSE {}>>
   ELSE IF ~c.active THEN <<c, {"HARNESS.eventOutsideCase"}>>
   ELSE CASE e.ev = "Pkt" /\ e.ep = "S" ->
               (CASE e.type = "STAT" /\ ~e.end -> SStat(c, e)
